@@ -66,6 +66,9 @@ ComposeExpand(p, sh4) ==
   \* an empty unsafe operand right before the redactable; Go-syntax printing of typed containers of redactables
   \cup {Case("Sprintf", Fs \o Fv, <<TStr(8, <<>>), TRStr(2, r)>>, <<>>), Case("Sprint", <<>>, <<TStr(8, <<>>), TRStr(2, r)>>, <<>>)}
   \cup {Case("Sprintf", FsharpV, <<RShape(sh, TRStr(2, r))>>, <<>>) : sh \in {"tslice", "tmapkey", "slice", "structE"}}
+  \* the very same container twice in one call (same object, not an equal copy)
+  \cup {Case("Sprintf", Fv \o <<124>> \o Fv, <<x, x>>, <<>>) : x \in {TSlice(30, <<TRStr(2, r), KeyR>>), TMap(30, <<KeyR, TRStr(2, r)>>), TTSlice(30, <<TRStr(2, r), KeyR>>)}}
+  \cup {Case("Sprint", <<>>, <<TSlice(31, <<TSlice(30, <<TRStr(2, r)>>), TSlice(30, <<TRStr(2, r)>>)>>)>>, <<>>)}
   \cup UNION {LET rq == R0(q)  jn == JoinOf(d, r, rq) IN
               {Case("Sprintf", <<120>> \o Fv \o <<121>> \o Fs \o <<122>>, <<TRStr(2, r), TRStr(7, rq)>>, <<>>),
                Case("Sprint", <<>>, <<TRStr(2, jn)>>, <<>>),
@@ -101,7 +104,7 @@ C08Holds(k, r) ==
         (DeleteEnvelopes(out) = OnlyOf(Strip(BuilderText(k.ts[1].xs[1])), NL) /\ Strip(out) = EscapeMarkers(Strip(BuilderText(k.ts[1].xs[1]))))
   /\ (Len(k.ts) = 1 /\ k.ts[1].k = "slice" /\ Len(k.ts[1].xs) = 2 /\ k.ts[1].xs[1].k = "builder") =>
         out = <<91>> \o BuilderText(k.ts[1].xs[1]) \o <<SP>> \o k.ts[1].xs[2].b \o <<93>>
-  /\ (Len(k.ts) = 1 /\ k.ts[1].k = "slice" /\ Len(k.ts[1].xs) = 2 /\ k.ts[1].xs[1].k # "builder") =>
+  /\ (Len(k.ts) = 1 /\ k.ts[1].k = "slice" /\ Len(k.ts[1].xs) = 2 /\ k.ts[1].xs[1].k \in {"rstring", "rbytes"}) =>
         out = <<91>> \o k.ts[1].xs[1].b \o <<SP>> \o k.ts[1].xs[2].b \o <<93>>
   /\ (Len(k.ts) = 1 /\ k.e = "Sprint" /\ k.ts[1].k = "rstring") =>
         /\ out = k.ts[1].b                                               \* Sprint(Sprint(a)) = Sprint(a), joined ones too
@@ -110,6 +113,8 @@ C08Holds(k, r) ==
   \* typed containers of RedactableBytes: the redactable appears unchanged, whatever the verb
   /\ (Len(k.ts) = 1 /\ k.ts[1].k \in {"tslice", "tarray", "tmap"} /\ \E i \in 1..Len(k.ts[1].xs) : k.ts[1].xs[i].k = "rbytes") =>
         \E i \in 0..(Len(out) - Len(r0)) : SubSeq(out, i + 1, i + Len(r0)) = r0
+  /\ (Len(k.ts) = 2 /\ k.ts[1] = k.ts[2] /\ k.ts[1].k \in {"slice", "map", "tslice"}) =>
+        \E half \in 1..Len(out) : out = SubSeq(out, 1, half) \o <<124>> \o SubSeq(out, 1, half)
   /\ (Len(k.ts) = 2 /\ k.ts[1].k = "string") => out = k.ts[2].b                   \* the empty operand adds nothing
   /\ (Len(k.ts) = 2 /\ k.ts[1].k = "rstring") =>
                         /\ out = <<120>> \o k.ts[1].b \o <<121>> \o k.ts[2].b \o <<122>>
